@@ -47,6 +47,7 @@ fn group_base(seed: u64, group: u64) -> (Case, &'static vcorpus::ProgramDef) {
       actors: vec![],
       sched: gen_sched(&mut rng),
       max_steps: MAX_STEPS,
+      index_scenario: None,
       violation: None,
    };
    let progs: Vec<_> = programs_tagged("c14").into_iter().filter(|p| p.variants.contains(&Variant::SerTo)).collect();
